@@ -170,7 +170,8 @@ def check(pid, tier, seed, a, t0):
         if bres.get("error"):
             errors.append("bounded: " + bres["error"])
     # ---------------------------------------------------------------- verdicts
-    os.makedirs(os.path.join(VERIF, "replays", pid), exist_ok=True)
+    RP = os.environ.get("VERIF_REPLAY_DIR", os.path.join(VERIF, "replays"))
+    os.makedirs(os.path.join(RP, pid), exist_ok=True)
     bviol = (bres or {}).get("violations", [])
     concrete = []
     for v in bviol:
@@ -185,7 +186,7 @@ def check(pid, tier, seed, a, t0):
             known_hit.append((match, {"what": o["name"]}))
             continue
         # a refuted obligation: attach a concrete failing input from the bounded search when there is one
-        rp = os.path.join(VERIF, "replays", pid, safe(o["name"]) + ".json")
+        rp = os.path.join(RP, pid, safe(o["name"]) + ".json")
         w = concrete[0] if concrete else None
         json.dump(
             {
@@ -204,8 +205,12 @@ def check(pid, tier, seed, a, t0):
         )
         violations.append({"what": o["name"], "replay": rp, "concrete": w is not None})
     if not refuted:
+        seen_cls = set()
         for v in concrete:
-            rp = os.path.join(VERIF, "replays", pid, safe(v.get("witness_class", "bounded")) + ".json")
+            if v.get("witness_class") in seen_cls:
+                continue
+            seen_cls.add(v.get("witness_class"))
+            rp = os.path.join(RP, pid, safe(v.get("witness_class", "bounded")) + ".json")
             json.dump({"property": pid, "obligation": v.get("contract", "bounded oracle"), "concrete_input": v, "replay_cmd": v.get("replay_cmd")}, open(rp, "w"), indent=1)
             violations.append({"what": v.get("what"), "replay": rp, "concrete": True})
     for o in unknown:
@@ -250,8 +255,9 @@ def check(pid, tier, seed, a, t0):
     ev["assumptions"] = spec.get("assumptions", []) + sorted(assumed)
     ev["violations"] = len(violations)
     ev["wall_s"] = round(time.time() - t0, 2)
-    os.makedirs(os.path.join(VERIF, "evidence"), exist_ok=True)
-    json.dump(ev, open(os.path.join(VERIF, "evidence", f"{pid}.json"), "w"), indent=1)
+    evdir = os.environ.get("VERIF_EVIDENCE_DIR", os.path.join(VERIF, "evidence"))
+    os.makedirs(evdir, exist_ok=True)
+    json.dump(ev, open(os.path.join(evdir, f"{pid}.json"), "w"), indent=1)
     # ---------------------------------------------------------------- report
     print(f"property {pid}: {discharged}/{len(obligations)} obligations discharged {by_backend}; "
           f"bounded evaluations={cov.get('evaluations', 0)}; {ev['wall_s']}s")
